@@ -71,6 +71,9 @@ var wants = []want{
 	{"pkg/blobserver/diskpacked/diskpacked.go", "gecmp:Size:size", "ReceiveBlob", "dp_dup_checks_extent_end"},
 	// encrypt ReceiveBlob: is the meta blob recorded (first recordMeta, right after it was written) before the index row is set (first Set)?
 	{"pkg/blobserver/encrypt/encrypt.go", "callorder:recordMeta<Set", "ReceiveBlob", "enc_meta_before_index"},
+	// C19 (D52): the enumeration source of the start-up full sync closes its channel, like the queue / pending sources
+	{"pkg/server/sync.go", "identcalls:close", "blobserverEnumerator", "sync_full_source_closes"},
+	{"pkg/server/sync.go", "identcalls:close", "enumeratePendingBlobs", "sync_pending_source_closes"},
 	// C14 (D50): overlay's two two-step writers take the store's mutex
 	{"pkg/blobserver/overlay/overlay.go", "selcalls:Lock", "ReceiveBlob", "overlay_receive_serialized"},
 	{"pkg/blobserver/overlay/overlay.go", "selcalls:Lock", "RemoveBlobs", "overlay_remove_serialized"},
@@ -654,6 +657,19 @@ func main() {
 				return true
 			})
 			fmt.Fprintf(&b, "Definition %s : bool := %v.\n", w.coqName, found && good)
+		case "identcalls:close":
+			fd, ok := fi.funcs[w.goName]
+			if !ok {
+				fail(fmt.Errorf("func not found"))
+			}
+			found := false
+			ast.Inspect(fd.Body, func(n ast.Node) bool {
+				if ce, ok := n.(*ast.CallExpr); ok && isIdent(ce.Fun, "close") {
+					found = true
+				}
+				return true
+			})
+			fmt.Fprintf(&b, "Definition %s : bool := %v.\n", w.coqName, found)
 		case "selcalls:ByteParts", "selcalls:DirectoryEntries", "selcalls:StaticSetMembers", "selcalls:StaticSetMergeSets", "selcalls:Stat", "selcalls:Lock":
 			fd, ok := fi.funcs[w.goName]
 			if !ok {
